@@ -102,6 +102,10 @@ pub struct CircuitBuilder<F: Field> {
     /// creator, unbalancing the `WitnessChecks` bus. The fresh path routes every coefficient
     /// through `recompose/coeff`, which creates each limb explicitly.
     decompose_skip_select_provenance: bool,
+
+    /// Select outputs whose coefficient-wise decomposition is currently being expanded by
+    /// [`Self::decompose_ext_to_base_coeffs`] (recursion guard).
+    decompose_in_progress: Vec<ExprId>,
 }
 
 impl<F> Default for CircuitBuilder<F>
@@ -135,6 +139,7 @@ where
             ext_select_sources: HashMap::new(),
             recompose_coeff_ctl_for_decompose_links: false,
             decompose_skip_select_provenance: false,
+            decompose_in_progress: Vec::new(),
         }
     }
 
@@ -1425,15 +1430,21 @@ where
                 // so the WitnessChecks bus stays balanced.
                 let saved_ctl = self.recompose_coeff_ctl_for_decompose_links;
                 self.recompose_coeff_ctl_for_decompose_links = false;
+                // `connect` shares select provenance between both sides, so a branch can carry
+                // the provenance of the select it feeds (e.g. `connect(select(b, t, s), s)`):
+                // guard the recursion (see `decompose_select_branch`).
+                self.decompose_in_progress.push(x);
                 let t_coeffs = match t_coeffs_opt {
-                    Some(c) => c,
-                    None => self.decompose_ext_to_base_coeffs::<BF>(t)?,
+                    Some(c) => Ok(c),
+                    None => self.decompose_select_branch::<BF>(t),
                 };
                 let s_coeffs = match s_coeffs_opt {
-                    Some(c) => c,
-                    None => self.decompose_ext_to_base_coeffs::<BF>(s)?,
+                    Some(c) => Ok(c),
+                    None => self.decompose_select_branch::<BF>(s),
                 };
+                self.decompose_in_progress.pop();
                 self.recompose_coeff_ctl_for_decompose_links = saved_ctl;
+                let (t_coeffs, s_coeffs) = (t_coeffs?, s_coeffs?);
                 debug_assert_eq!(t_coeffs.len(), F::DIMENSION);
                 debug_assert_eq!(s_coeffs.len(), F::DIMENSION);
                 let mut coeffs = Vec::with_capacity(F::DIMENSION);
@@ -1480,6 +1491,27 @@ where
 
         self.pop_scope();
         Ok(coeffs)
+    }
+
+    /// Decomposes one branch of a select whose output is being decomposed coefficient-wise.
+    ///
+    /// A branch that is itself already being expanded (it shares, through `connect`, the
+    /// provenance of a select it feeds) gets fresh hinted coefficients instead of being
+    /// expanded again, which would never terminate.
+    fn decompose_select_branch<BF>(
+        &mut self,
+        branch: ExprId,
+    ) -> Result<Vec<ExprId>, CircuitBuilderError>
+    where
+        BF: PrimeField64,
+        F: ExtensionField<BF>,
+    {
+        let saved_skip = self.decompose_skip_select_provenance;
+        self.decompose_skip_select_provenance =
+            saved_skip || self.decompose_in_progress.contains(&branch);
+        let coeffs = self.decompose_ext_to_base_coeffs::<BF>(branch);
+        self.decompose_skip_select_provenance = saved_skip;
+        coeffs
     }
 
     /// Applies Poseidon2 permutation for the circuit challenger.
